@@ -96,14 +96,14 @@ def is_bank_literal(n):
 
 
 _FN = "field(call_node, 'func')"
-contract(EC + "event_collection_coder.get_collection", props=["C06", "C09"],
+contract(EC + "event_collection_coder.get_collection", props=["C06", "C09"], replay={"no-raise[ValueError]": "dropped_call_arguments"},
          params=dict(self=CODER, md=EventCollectionSpecification, call_node=CALL),
          result=CALL,
          requires=["self != None and live(self)", "md.container_type != None and live(md.container_type)",
                    "all(a != None and live(a) for a in field(call_node, 'args'))", ("backend_pairing", MINI_PAIRING)],
          modifies=["func", "include_files", "link_libraries", "initialization_code", "running_code", "args@" + CCV, "replacement_instance_obj",
                    "result", "result_rep", "fields@" + CCV, "alloc", "global:func_adl_xAOD.common.cpp_vars.unique_var_index"],
-         raises={"ValueError": "len(field(call_node, 'args')) != 1 or not is_bank_literal(field(call_node, 'args')[0])"},
+         raises={"ValueError": "len(field(call_node, 'args')) != 1 or len(field(call_node, 'keywords')) > 0 or not is_bank_literal(field(call_node, 'args')[0])"},
          ensures=[("same_call_bank_is_the_only_argument", "result == call_node and seq_eq(field(call_node, 'args'), old(field(call_node, 'args'))) and "
                                                           "len(field(call_node, 'args')) == 1 and is_bank_literal(field(call_node, 'args')[0])"),
                   ("code_value", "is_new(" + _FN + ") and cls_is(" + _FN + ", '" + CCV + "')"),
